@@ -438,3 +438,31 @@ Proof.
   destruct (gs_outputs X _ _ Hs) as (A & B & Cc & D & E & F & G & H & _).
   subst rv rf. repeat split; assumption.
 Qed.
+
+(* ---- a cold fit rejected for its switching-point parameters (/repo ac09377) ----------------- *)
+(* ... leaves the whole object unchanged, whatever state it was in *)
+Theorem sess_rejected_keeps_state s X ff nt br i0 p e :
+  ff_check ff nt = Some e -> sess_step s (VColdFF X ff nt br i0 p) = (s, false).
+Proof.
+  intros H. unfold sess_step. destruct (negb (shape_ok X)); [reflexivity|].
+  destruct (resolve_n (length X) p); [|reflexivity]. now rewrite H.
+Qed.
+
+(* ... so the session invariant survives it: the object is still in plain FPS's state on the data
+   of its last accepted cold fit, and a following warm start continues from there *)
+Theorem sess_rejected_then_warm s g2 X d X' ff nt br' i0 p' e br p k :
+  dims d X -> shape_ok X = true -> resolve_n (length X) p = Some k ->
+  sess_inv X s g2 -> (length (sel g2) <= k)%nat -> ff_check ff nt = Some e ->
+  let s1 := fst (sess_step s (VColdFF X' ff nt br' i0 p')) in
+  snd (sess_step s1 (VWarm X br p)) = true /\
+  sess_inv X (fst (sess_step s1 (VWarm X br p))) (fst (fps_run X None NoThr k g2)).
+Proof.
+  intros Hd Hsh Hr Hinv Hk He s1. subst s1.
+  rewrite (sess_rejected_keeps_state s X' ff nt br' i0 p' e He). cbn [fst].
+  exact (sess_warm_equals_fps s g2 X d br p k Hd Hsh Hr Hinv Hk).
+Qed.
+
+(* with accepted switching-point parameters the call is an ordinary cold fit *)
+Theorem sess_coldff_accepted s X ff nt br i0 p :
+  ff_check ff nt = None -> sess_step s (VColdFF X ff nt br i0 p) = sess_step s (VCold X br i0 p).
+Proof. intros H. unfold sess_step. now rewrite H. Qed.
